@@ -126,6 +126,7 @@ type c16Env struct {
 	realHome string
 	unshare  bool
 	hr       string
+	srv      *run.Server // when set: runs are served by this long-lived process instead of fresh ones
 }
 
 // exec runs hr with the assignment; the observable command is appended by the caller.
@@ -238,6 +239,9 @@ func (e c16Env) exec(a c16Assign, dbOverride, logLayoutFor string, cmd ...string
 	var prefix []string
 	if e.unshare {
 		prefix = []string{"unshare", "-m", "sh", "-c", fmt.Sprintf("mount --bind %s %s && exec \"$@\"", e.home, e.realHome), "--"}
+	}
+	if e.srv != nil && !e.unshare {
+		return e.srv.App1(args, env), args, env, conf
 	}
 	res := run.Exec(e.hr, args, run.ExecOpts{Dir: e.dir, Env: env, Prefix: prefix})
 	return res, args, env, conf
@@ -450,6 +454,28 @@ func runC16(c *core.Ctx) {
 		if i < 3 {
 			c.Sample(map[string]any{"assignment": a.String(), "observed_setting": s, "expected_level": a.level(s)})
 		}
+	}
+
+	// (2b) the same kind of assignments, all served one after the other by one long-lived process (the job server):
+	// the level that decides is the one of this invocation, whatever earlier invocations of the process were given
+	if srv, err := run.NewServer(c.HR, e.dir); err != nil {
+		c.HarnessError("cannot start the job server: " + err.Error())
+	} else {
+		e.srv = srv
+		for i := 0; i < c.N(150, 1500); i++ {
+			r := c.Rng("joint-in-process", i)
+			a := c16Assign{flag: map[string]bool{}, env: map[string]bool{}, conf: map[string]bool{}, file: r.Intn(4) > 0, src: []string{"--config", "HR_CONFIG"}[r.Intn(2)]}
+			for _, s := range c16Settings {
+				a.flag[s], a.env[s], a.conf[s] = r.Intn(3) == 0, r.Intn(3) == 0, r.Intn(2) == 0
+			}
+			check(a, c16Settings[r.Intn(len(c16Settings))])
+			c.Count("joint_assignments_in_one_process", 1)
+		}
+		e.srv = nil
+		c.Count("l2_jobs", srv.Jobs)
+		c.Count("l2_process_deaths", srv.Deaths)
+		c.Count("l2_priming_runs", srv.Primed)
+		srv.Close()
 	}
 
 	// (3) explicit configuration files
